@@ -62,8 +62,13 @@ func VerifApuStatusWrite() {
 	if k == 1 {
 		f = a.ch1.frequency&0xff | uint16(v&7)<<8
 	}
+	seq0 := a.frameSeqTicks
 	a.verifWrite(r, v)
 	post := view(a, k)
+	// the frame sequencer is restarted only by switching the power on from off; no other register write moves its phase
+	if !(r == 20 && v&0x80 != 0 && !power) {
+		vAssert("sequencer-phase-untouched", a.frameSeqTicks == seq0)
+	}
 
 	// ---- S-on: the status bit turns on only by a trigger with the DAC on (and no sweep overflow for channel 1)
 	if post.on && !pre.on {
@@ -183,6 +188,13 @@ func VerifApuStatusClock() {
 		vAssert("never-turns-on", !post.on || pre.on)
 		if en && st == 1 && sp != 0 && inc && int(shadow)+int(shadow>>sh) > 2047 {
 			vAssert("sweep-overflow-turns-off", !post.on)
+		}
+		// the overflow check is repeated with the new frequency straight after it has been written back
+		if en && st == 1 && sp != 0 && inc && sh > 0 {
+			nf := int(shadow) + int(shadow>>sh)
+			if nf <= 2047 && nf+(nf>>sh) > 2047 {
+				vAssert("second-sweep-overflow-check-turns-off", !post.on)
+			}
 		}
 		vAssert("sweep-keeps-length", post.len == pre.len && post.lenEn == pre.lenEn)
 	case 2: // a whole clock cycle: the status bit never turns on, length only moves by the length clock
